@@ -42,7 +42,7 @@ type c13Run struct {
 func (r *c13Run) Sample() any { return r }
 
 var c13Kinds = []string{"valid-msg", "mutate-size", "mutate-header", "mutate-body", "garbage", "partial-flood", "endless", "bad-opn", "clo", "unknown-type",
-	"tiny", "abort", "wrong-channel", "wrong-token", "dup-final", "err-frame", "huge-string", "truncated", "huge-array-length", "opn-service-in-msg"}
+	"tiny", "abort", "wrong-channel", "wrong-token", "dup-final", "err-frame", "huge-string", "truncated", "huge-array-length", "opn-service-in-msg", "opn-valid-cert"}
 
 const (
 	c13Buf       = 8192
@@ -177,6 +177,11 @@ func (r *c13Run) build(f c13Frame, channelID, tokenID uint32, seq *uint32, msgTy
 			binary.LittleEndian.PutUint32(body[len(body)-8:], n) // Results
 		}
 		return [][]byte{chunk('F', uint32(3000+f.A), body)}
+	case "opn-valid-cert": // an unsolicited OpenSecureChannel chunk that names a real policy and carries a well-formed certificate
+		loadKeys()
+		c := &refcodec.Chunk{Type: "OPN", ChunkType: 'F', ChannelID: channelID, PolicyURI: "http://opcfoundation.org/UA/SecurityPolicy#" + []string{"Basic256Sha256", "Basic128Rsa15", "Aes256_Sha256_RsaPss"}[f.A%3],
+			Cert: key("server", 2048).Cert, Thumb: thumbprint(key("client", 2048).Cert), Seq: next(), RequestID: uint32(f.A), Body: make([]byte, 256*(1+f.B%3))}
+		return [][]byte{c.EncodePlain()}
 	case "opn-service-in-msg": // an OpenSecureChannel request / response travelling as an ordinary MSG
 		var body []byte
 		hdr := &ua.RequestHeader{AuthenticationToken: ua.NewTwoByteNodeID(0), Timestamp: time.Now(), AdditionalHeader: ua.NewExtensionObject(nil)}
